@@ -12,12 +12,26 @@
                                                  the configured unit measured by the driver (number of
                                                  items found / length of the encoding)
      {"ev":"emit_end","k":n,"ok":bool}           that export call returns
+     {"ev":"split","req":r,"merged":bool,"parts":[{"n":items,"reqs":[r,..]},..]}
+                                                 batch scripts: the batcher consumed request r, and its MergeSplit
+                                                 call returned these parts (merged: with the held batch; per part the
+                                                 number of items and the requests whose containers it holds; the order
+                                                 of these lines is the order of consumption).  Not judged here -- the
+                                                 statement speaks about what reaches the export function and about the
+                                                 callbacks; it is recorded so that a callback verdict can be explained
+                                                 (a returned part WITHOUT items is invisible when the batcher holds it)
      {"ev":"done","req":r,"err":bool,..}         batch scripts: Send(r) returned = the callback fired
      {"ev":"timeout","what":text}                the script did not finish (10 s / 1 GiB watchdog, confirmed
                                                  by a second run)
      {"ev":"quiesce"}                            everything returned and Shutdown is over
      {"ev":"end"}
    The order of the lines is the order in which the recorder's mutex was taken.
+
+   Items left at their defaults (PayloadFill.tla) have no id of their own.  The recorder gives such an item
+   that leaves the id of an indistinguishable item (same content, same context) that entered and has not left
+   yet; failing that, of one that differs in the metric descriptor only; failing that, an id nobody entered.
+   Indistinguishable items are interchangeable for every clause below, so this reads the clauses on them as
+   "as many leave as entered, in the same contexts" -- they are counted, not tracked.
 
    The monitor is as nondeterministic as the statement: ANY partition into parts that conserves the
    bag, keeps every context and respects max (or holds a single item) is accepted, and any timing of
@@ -83,6 +97,10 @@ TDone ==
   /\ nchecks' = nchecks + 3
   /\ UNCHANGED <<entered, batches, sid, kind, max>>
 
+TSplitInfo ==
+  /\ E.ev = "split"
+  /\ UNCHANGED <<obsVars, sid, kind, max, nchecks>>
+
 \* "Merging and splitting always terminate" / "the callback fires"
 TTimeout ==
   /\ E.ev = "timeout"
@@ -106,6 +124,6 @@ TEnd ==
 
 TNext == /\ l <= Len(Log)
          /\ l' = l + 1
-         /\ TReset \/ TConsume \/ TEmit \/ TEmitEnd \/ TDone \/ TTimeout \/ TQuiesce \/ TEnd
+         /\ TReset \/ TConsume \/ TEmit \/ TEmitEnd \/ TSplitInfo \/ TDone \/ TTimeout \/ TQuiesce \/ TEnd
 TSpec == TInit /\ [][TNext]_tvars
 =============================================================================
